@@ -287,7 +287,7 @@ esl_sq_Copy(const ESL_SQ *src, ESL_SQ *dst)
     
     for (x = 0; x < dst->nxr; x++) {
       ESL_ALLOC(dst->xr_tag[x], sizeof(char) * ((src->xr_tag[x] ? strlen(src->xr_tag[x]) : 0) + 1));  /* sized by the tag, not by the name */
-      ESL_ALLOC(dst->xr[x],     sizeof(char) * src->salloc);
+      ESL_ALLOC(dst->xr[x],     sizeof(char) * dst->salloc);  /* like dst->ss: <dst>'s own allocation (text n+1, digital n+2); esl_sq_GrowTo() below grows them together */
     }
   }
   
